@@ -19,10 +19,11 @@ from ..gen import c01_enc as E
 from ..gen import c01_rsmi as R
 from ..gen import c02_enc as X
 from ..gen import c02_hist as HS
+from ..gen import c02_store as ST
 from . import C01 as P1
 
 PID = "C02"
-COQ_HEADER = ("From Coq Require Import List NArith ZArith.\nFrom SK Require Import lib.Tok lib.LGraph model.C01_Model model.C02_Model.\n"
+COQ_HEADER = ("From Coq Require Import List NArith ZArith.\nFrom SK Require Import lib.Tok lib.LGraph model.C01_Model model.C01_Opts model.C02_Model model.C02_Store.\n"
               "Import ListNotations.\nOpen Scope Z_scope.\n")
 SHARD = 450
 IMPL_TIMEOUT = 1500
@@ -230,6 +231,153 @@ def impl_raw(case):
     return out
 
 
+def _build_S(case, which=None):
+    """the networkx ITS of an S-case: a JSON literal with pair labels, or ITSConstruction on (G, H) under the case's options"""
+    if "S" in case:
+        return ST.to_nx_S(case["S"])
+    from synkit.Graph.ITS.its_construction import ITSConstruction
+    G, H = P1._graphs_nx(case)
+    opts = case["sopts"] if which is None else case["sopts"][which]
+    if opts.get("api") == "construct-defaults":
+        return ITSConstruction.construct(G, H)             # store=True, balance_its=True, ignore_aromaticity=False
+    return E.call_construct(G, H, opts)
+
+
+def impl_S(case):
+    from synkit.Graph.ITS.its_decompose import get_rc
+    from synkit.Graph.Context.radius_expand import RadiusExpand
+    from ..tok import S
+    if "shist" in case:
+        objs = {w: _build_S(case, w) for w in case["sopts"]}
+        return [ST.obs_sits(_s_query(objs[w], q)) for w, q in case["shist"]]
+    keys = list(case["keys"])
+    out = []
+    for disc, keep in OPTS:
+        I = _build_S(case)
+        rc = get_rc(I, element_key=list(keys), disconnected=disc, keep_mtg=keep)
+        rc2 = get_rc(rc, element_key=list(keys), disconnected=disc, keep_mtg=keep)
+        out.append([ST.obs_sits(rc), ST.obs_sits(rc2)])
+    I = _build_S(case)
+    out.append([ST.obs_sits(RadiusExpand.extract_k(I, k)) for k in RADII])
+    out.append(S(sorted(RadiusExpand.find_unequal_order_edges(I))))
+    return out
+
+
+def _s_query(I, q):
+    from synkit.Graph.ITS.its_decompose import get_rc
+    from synkit.Graph.Context.radius_expand import RadiusExpand
+    if q[0] == "rc":
+        return get_rc(I)
+    if q[0] == "rcx":
+        return get_rc(I, list(q[1]), "order", "standard_order", q[2], q[3])
+    if q[0] == "k":
+        return RadiusExpand.extract_k(I, q[1])
+    if q[0] == "ctx":
+        return RadiusExpand.context_extraction({"ITS": I}, n_knn=q[1])["K"]
+    if q[0] == "hk":
+        from synkit.Graph.Context.hier_context import HierContext
+        return HierContext.extract_k(I, n_knn=q[1])
+    raise AssertionError(q)
+
+
+def _s_lit(case, which=None):
+    if "S" in case:
+        return ST.coq_sits(case["S"])
+    gh = P1._graphs_nx(case)
+    opts = case["sopts"] if which is None else case["sopts"][which]
+    o = dict(ST.DEFAULT_CONSTRUCT, api="construct") if opts.get("api") == "construct-defaults" else opts
+    return ST.coq_built(o, E.coq_mgraph(E.from_nx(gh[0])), E.coq_mgraph(E.from_nx(gh[1])))
+
+
+def coq_S(case):
+    if case.get("sraw"):
+        return None
+    if "shist" in case:
+        lits = {w: _s_lit(case, w) for w in case["sopts"]}
+        ts = []
+        for w, q in case["shist"]:
+            if q[0] == "rc":
+                ts.append("tsits (get_rc_S K_default false false %s)" % lits[w])
+            elif q[0] == "rcx":
+                ts.append("tsits (get_rc_S %s %s %s %s)" % (X.coq_keys(q[1]), E.cb(q[2]), E.cb(q[3]), lits[w]))
+            else:
+                ts.append("tsits (extract_k_S %s %d%%nat)" % (lits[w], q[1]))
+        return "L [%s]" % "; ".join(ts)
+    return "run_S_all %s %s" % (X.coq_keys(case["keys"]), _s_lit(case))
+
+
+def _labels_clause(tag, got, I, keys=None, hh_nodes=()):
+    """'with their ITS labels': every label of an atom of a centre / context is EQUAL to the ITS atom's label and has the same shape and type"""
+    for n in got.nodes:
+        if n not in I.nodes:
+            continue
+        src = I.nodes[n]
+        for k, v in got.nodes[n].items():
+            if keys is not None and k not in keys and k != "typesGH":
+                continue
+            if k == "typesGH" and k not in src:
+                continue                                   # the H-H fallback
+            if k not in src or not ST.same_label(_tup(v) if k in ("typesGH", "neighbors") else v, _tup(src[k]) if k in ("typesGH", "neighbors") else src[k]):
+                return [dict(clause="atom-labels-unchanged", detail="%s: atom %r label %s is %r (%s), the ITS atom has %r (%s)"
+                             % (tag, n, k, v, type(v).__name__, src.get(k, "<absent>"), type(src.get(k)).__name__))]
+    return []
+
+
+def oracle_S(case):
+    from synkit.Graph.ITS.its_decompose import get_rc
+    from synkit.Graph.Context.radius_expand import RadiusExpand
+    fails = []
+    if "shist" in case:
+        objs = {w: _build_S(case, w) for w in case["sopts"]}
+        for i, (w, q) in enumerate(case["shist"]):
+            got = _s_query(objs[w], q)
+            fresh = _s_query(_build_S(case, w), q)
+            if not HS.graph_eq(got, fresh):
+                fails.append(dict(clause="history-step-fresh", detail="step %d %r on the %s ITS differs from the same call on a freshly built ITS; earlier steps %r" % (i, q, w, case["shist"][:i])))
+                break
+            fails += _labels_clause("step %d %r on the %s ITS" % (i, q, w), got, objs[w])
+            if not HS.graph_eq(objs[w], _build_S(case, w)):
+                fails.append(dict(clause="history-its-changed", detail="step %d %r changed the %s ITS" % (i, q, w)))
+            if fails:
+                break
+        return fails[:3]
+    keys = list(case["keys"])
+    for disc, keep in OPTS:
+        I = _build_S(case)
+        tag = "disconnected=%s keep_mtg=%s element_key=%r" % (disc, keep, keys)
+        rc = get_rc(I, element_key=list(keys), disconnected=disc, keep_mtg=keep)
+        fails += _labels_clause(tag, rc, I, keys)
+        try:
+            bonds, atoms = ref_centre(_build_S(case), keys, disc, keep)
+        except (KeyError, TypeError):
+            bonds = None
+        if bonds is not None:
+            if {frozenset(e) for e in rc.edges} != set(bonds) or set(rc.nodes) != set(atoms):
+                fails.append(dict(clause="opt-centre-bonds", detail="%s: centre atoms %r bonds %r, expected atoms %r bonds %r (changed%s bonds, H-H bonds where the top-level element is the string 'H')"
+                                  % (tag, sorted(rc.nodes), sorted(map(sorted, rc.edges)), sorted(atoms), sorted(map(sorted, bonds)), " or is_mtg" if keep else "")))
+            else:
+                for n in rc.nodes:
+                    if set(rc.nodes[n]) != set(atoms[n]):
+                        fails.append(dict(clause="opt-centre-atom-labels", detail="%s: atom %r carries the labels %r, expected %r" % (tag, n, sorted(rc.nodes[n]), sorted(atoms[n]))))
+                        break
+        if not HS.graph_eq(I, _build_S(case)):
+            fails.append(dict(clause="opt-input-mutated", detail="%s: get_rc changed its input graph" % tag))
+        if fails:
+            return fails[:3]
+    I = _build_S(case)
+    centre = set(get_rc(I).nodes)
+    for k in RADII[1:]:
+        ctx = RadiusExpand.extract_k(I, k)
+        if set(ctx.nodes) != _ball(I, centre, k):
+            fails.append(dict(clause="context-atoms", detail="radius %d: context atoms %r, atoms within %d bonds of the centre %r" % (k, sorted(ctx.nodes), k, sorted(_ball(I, centre, k)))))
+        fails += _labels_clause("context of radius %d" % k, ctx, I)
+        if any(set(ctx.nodes[n]) != set(I.nodes[n]) for n in ctx.nodes):
+            fails.append(dict(clause="context-induced", detail="radius %d: a context atom lost or gained labels" % k))
+        if fails:
+            break
+    return fails[:3]
+
+
 def impl_wrap(case):
     """thin wrappers around get_rc / extract_k"""
     w = case["wrap"]
@@ -257,6 +405,8 @@ def impl(case):
     from synkit.Graph.ITS.its_decompose import get_rc
     from synkit.Graph.Context.radius_expand import RadiusExpand
     from ..tok import S
+    if "S" in case or "sopts" in case:
+        return impl_S(case)
     if "hist" in case:
         return HS.run_history(case, False)[0]
     if "wrap" in case:
@@ -284,6 +434,8 @@ def impl(case):
 def coq_case(case):
     worker_init()
     try:
+        if "S" in case or "sopts" in case:
+            return coq_S(case)
         if "hist" in case:
             return HS.coq_history(case)
         if "wrap" in case:
@@ -405,7 +557,7 @@ def centre_clauses(I, cls="std"):
     else:
         for n in rc.nodes:
             for k in LABELS:
-                if k not in rc.nodes[n] or rc.nodes[n][k] != I.nodes[n][k]:
+                if k not in rc.nodes[n] or not ST.same_label(_tup(rc.nodes[n][k]), _tup(I.nodes[n][k])):
                     fails.append(dict(clause="centre-atom-labels", detail="atom %r label %s: centre %r, ITS %r"
                                       % (n, k, rc.nodes[n].get(k, "<absent>"), I.nodes[n][k])))
                     break
@@ -438,7 +590,7 @@ def centre_clauses(I, cls="std"):
         else:
             ind = {frozenset((u, v)) for u, v in I.edges if u in ball and v in ball}
             if edges != ind or any(not _same_edge_attrs(ctx.edges[tuple(e)], I.edges[tuple(e)]) for e in edges) \
-                    or any(ctx.nodes[n] != I.nodes[n] for n in nodes):
+                    or any(ctx.nodes[n] != I.nodes[n] or _labels_clause("", ctx.subgraph([n]), I) for n in nodes):
                 fails.append(dict(clause="context-induced", detail="radius %d: context is not the induced subgraph of the ITS" % k))
         if prev_nodes is not None and not (prev_nodes <= nodes and prev_edges <= edges):
             fails.append(dict(clause="context-chain", detail="context(%d) is not within context(%d)" % (k - 1, k)))
@@ -512,7 +664,7 @@ def ref_centre(I, keys, disc, keep):
 def _attrs_eq(got, want):
     if set(got) != set(want):
         return False
-    return all(_gh_eq(got[k], want[k]) if k in ("typesGH", "neighbors") else got[k] == want[k] for k in want)
+    return all(ST.same_label(_tup(got[k]), _tup(want[k])) for k in want)
 
 
 def oracle_x(case):
@@ -804,6 +956,8 @@ def oracle_wrap(case):
 
 def oracle(case):
     from synkit.Graph.ITS.its_decompose import get_rc
+    if "S" in case or "sopts" in case:
+        return oracle_S(case)
     if "hist" in case:
         return oracle_hist(case)
     if "wrap" in case:
@@ -844,10 +998,14 @@ def oracle(case):
 
 
 def _special(case):
-    return "X" in case or "Is" in case or "helpers" in case or bool(case.get("lre")) or "hist" in case or "wrap" in case or bool(case.get("raw"))
+    return "X" in case or "Is" in case or "helpers" in case or bool(case.get("lre")) or "hist" in case or "wrap" in case or bool(case.get("raw")) \
+        or "S" in case or "sopts" in case
 
 
 def nontrivial(case, obs):
+    if "S" in case or "sopts" in case:
+        # a centre atom carries a pair-valued label
+        return "pair" in repr(case.get("S", "")) or any(o.get("store") for o in ([case["sopts"]] if "api" in case.get("sopts", {}) else list(case.get("sopts", {}).values())))
     if "hist" in case:
         # the answers of two steps differ (the history is not a repetition of one value)
         return isinstance(obs, list) and len(obs) >= 2 and any(o != obs[0] for o in obs[1:])
@@ -877,6 +1035,8 @@ def distribution(cases, obss):
     hist_ops = {}
     for c, o in zip(cases, obss):
         kinds[c.get("kind", "?")] = kinds.get(c.get("kind", "?"), 0) + 1
+        if "S" in c or "sopts" in c:
+            continue
         if "hist" in c:
             for st in c["hist"]:
                 hist_ops[st[0]] = hist_ops.get(st[0], 0) + 1
@@ -919,7 +1079,7 @@ def distribution(cases, obss):
 
 
 def shrink(case, fl):
-    if "hist" in case or "wrap" in case or case.get("raw"):
+    if "hist" in case or "wrap" in case or case.get("raw") or "S" in case or "sopts" in case:
         return case
     if "X" in case:
         cur = case
@@ -1334,6 +1494,48 @@ def gen_huge(rng, tier):
     return cases
 
 
+def gen_store(rng, tier):
+    """ITS graphs with (reactant, product) PAIR labels: ITSConstruction.construct with its defaults (store=True, balance_its=True) and
+    with option combinations, on synthetic pairs and corpus reactions; literal graphs with all / some nodes pair-labelled; histories
+    mixing the store=True and the store=False ITS of one reaction; label shapes outside the model (oracle only)"""
+    q = tier == "quick"
+    cases = []
+    small = [c for c in P1.gen_exhaustive_small(rng) if c["kind"] == "exh2"]
+    for c in rng.sample(small, 150 if q else 1200):
+        cases.append(dict(kind="s-pair-exh2", G=c["G"], H=c["H"], sopts=dict(ST.DEFAULT_CONSTRUCT), keys=list(X.DEFAULT_KEYS)))
+    for c in P1.gen_random(rng, 200 if q else 1500, maxn=8):
+        cases.append(dict(kind="s-pair-default", G=c["G"], H=c["H"], sopts=dict(ST.DEFAULT_CONSTRUCT), keys=list(rng.choice(X.KEY_CHOICES))))
+    for c in P1.gen_random(rng, 150 if q else 1200, maxn=8) + P1.gen_malformed(rng, 60 if q else 400):
+        cases.append(dict(kind="s-pair-opts", G=c["G"], H=c["H"], sopts=ST.rand_opts(rng), keys=list(rng.choice(X.KEY_CHOICES))))
+    corpus = [(s_, i, r) for s_, i, r in R.load_corpus() if R.well_formed(r)]
+    for s_, i, r in rng.sample(corpus, 24 if q else 150):
+        cases.append(dict(kind="s-corpus-default", rsmi=r, src="%s#%d" % (s_, i), sopts=dict(ST.DEFAULT_CONSTRUCT), keys=list(X.DEFAULT_KEYS)))
+    for g in X.gen_x_exhaustive():
+        if len(g["nodes"]) == 2:
+            cases.append(dict(kind="s-exh", S=ST.pairify(g, rng), keys=list(X.DEFAULT_KEYS)))
+    for _ in range(200 if q else 1500):
+        cases.append(dict(kind="s-rand", S=ST.pairify(X.rand_x(rng, rng.randint(2, 9)), rng, rng.choice((1.0, 1.0, 0.5))), keys=list(rng.choice(X.KEY_CHOICES))))
+    for c in P1.gen_random(rng, 80 if q else 600, maxn=7):
+        so = {"T": dict(ST.DEFAULT_CONSTRUCT), "F": {"api": "ITSGraph", "ia": False, "bal": False, "store": False}}
+        steps = []
+        for _ in range(rng.randint(3, 5)):
+            w = rng.choice(("T", "F"))
+            z = rng.random()
+            steps.append([w, ["rc"] if z < 0.35 else (["rcx", list(rng.choice(X.KEY_CHOICES)), rng.random() < 0.5, rng.random() < 0.5] if z < 0.6
+                              else [rng.choice(("k", "ctx", "hk")), rng.choice((0, 1, 2))])])
+        cases.append(dict(kind="s-hist", G=c["G"], H=c["H"], sopts=so, shist=steps))
+    # label shapes a caller may have that the model does not cover: oracle only ('labels copied unchanged')
+    base = {"nodes": [[1, its_node(1, "C")], [2, its_node(2, "O")], [3, its_node(3, "C")]], "edges": [[1, 2, its_edge(1, 2)], [2, 3, its_edge(1, 1)]]}
+    shapes = [("custom-pair", {"tag": {"pair": [1, 2]}}, ["element", "tag", "typesGH"]), ("custom-triple", {"tag": {"tuple": [1, 2, 3]}}, ["tag", "element"]),
+              ("charge-none", {"charge": None}, list(X.DEFAULT_KEYS)), ("charge-numpy", {"charge": {"np_int": 0}}, list(X.DEFAULT_KEYS)),
+              ("element-list", {"element": ["C", "C"]}, list(X.DEFAULT_KEYS)), ("nested", {"tag": {"pair": [{"pair": [1, 2]}, 3]}}, ["tag"]),
+              ("charge-pair-on-scalar-graph", {"charge": {"pair": [0, -1]}}, list(X.DEFAULT_KEYS)), ("atom_map-pair", {"atom_map": {"pair": [1, 1]}}, list(X.DEFAULT_KEYS))]
+    for name, extra, keys in shapes:
+        g = {"nodes": [[n, dict(a, **extra)] for n, a in base["nodes"]], "edges": base["edges"]}
+        cases.append(dict(kind="s-raw", S=g, keys=keys, sraw=True, name="store/raw/%s" % name))
+    return cases
+
+
 def gen_cases(tier, rng):
     exh = gen_exhaustive_its()
     cases = list(exh)
@@ -1352,4 +1554,5 @@ def gen_cases(tier, rng):
     cases += gen_wrappers(rng, tier)
     cases += gen_degenerate()
     cases += gen_huge(rng, tier)
+    cases += gen_store(rng, tier)
     return cases
